@@ -194,6 +194,11 @@ func ReadTorrent(proxy string, r io.Reader) (*Torrent, error) {
 	return t, nil
 }
 
+// validComponent returns true if s can be a component of a file path.
+func validComponent(s string) bool {
+	return s != "" && !strings.Contains(s, "/")
+}
+
 // MetadataComplete must be called when a torrent's metadata is complete.
 func (torrent *Torrent) MetadataComplete() error {
 	var info BInfo
@@ -234,6 +239,11 @@ func (torrent *Torrent) MetadataComplete() error {
 			if path == nil {
 				return errors.New("file has no path")
 			}
+			for _, c := range path {
+				if !validComponent(c) {
+					return errors.New("bad file path")
+				}
+			}
 			if f.Length < 0 || length+f.Length < length {
 				return errors.New("bad file length")
 			}
@@ -267,6 +277,9 @@ func (torrent *Torrent) MetadataComplete() error {
 	}
 	if torrent.Name == "" {
 		return errors.New("torrent has no name")
+	}
+	if !validComponent(torrent.Name) {
+		return errors.New("bad torrent name")
 	}
 	torrent.Pieces.MetadataComplete(info.PieceLength, length)
 	torrent.Files = files
